@@ -8,7 +8,7 @@ import time
 
 VERIF = os.path.dirname(os.path.dirname(os.path.abspath(__file__)))
 REPO = os.environ.get('VERIF_REPO', '/repo')
-WORK = os.path.join(VERIF, 'work')
+WORK = os.environ.get('VERIF_WORK', os.path.join(VERIF, 'work'))
 BUILD = os.path.join(VERIF, 'build')
 EVIDENCE = os.path.join(VERIF, 'evidence')
 REPLAY = os.path.join(VERIF, 'replay')
@@ -128,6 +128,7 @@ def finish(prop, tier, level, parts, t0, explanation, level_keys=None):
         'repo_rev': repo_rev(),
         'programs': sum(p.programs for p in parts),
         'disagreements_checked': len(violations),
+        'failed_obligations': [{'obligation': v.get('obligation'), 'replay': v.get('replay'), 'reproduced': v.get('reproduced'), 'what': str(v.get('what', ''))[:400]} for v in violations],
         'exhaustive': False,
     }
     for p in parts:
@@ -150,9 +151,12 @@ def finish(prop, tier, level, parts, t0, explanation, level_keys=None):
         json.dump(ev, f, indent=1, default=str)
     for k in known:
         print('KNOWN-FINDING: property=%s %s' % (prop, k))
-    for v in violations:
+    for n, v in enumerate(violations):
+        if n >= 8:
+            print('# ... %d more failed obligations (all listed in %s)' % (len(violations) - n, os.path.join(EVIDENCE, prop + '.json')))
+            break
         tail = '' if v.get('reproduced') else ' no-failing-input-found'
-        print('# failed obligation: %s -- %s' % (v.get('obligation'), v.get('what', '')))
+        print('# failed obligation: %s -- %s' % (v.get('obligation'), str(v.get('what', ''))[:600].replace('\n', ' ')))
         print('VIOLATION property=%s replay=%s%s' % (prop, v['replay'], tail))
     print('%s tier=%s: %d/%d unbounded obligations discharged, %d/%d bounded, %d violation(s), %d known finding(s), %d infrastructure error(s), %.0fs'
           % (prop, tier, discharged, obligations, b_dis, b_obl, len(violations), len(known), len(errors), time.time() - t0))
